@@ -317,16 +317,21 @@ CHECKS["C14"] = {
               "gaps up to 2 h, and a fault script that makes the first 0..6 round trips of every STUN transaction fail (request or "
               "response lost), duplicates and delays control messages. At every probe instant one datagram each way per peer must arrive "
               "intact and exactly once, AllocationCount stays 1; after Close of the relayed socket AllocationCount is 0 and the relay socket "
-              "closed; the bubble drains after closing client and server. Also runs Allocate with generated time-windowed credentials "
-              "(C17 end-to-end)."),
+              "closed; the bubble drains after closing client and server. Peers may join late (first write hours into the session), "
+              "the application also writes to peers the server refuses (operator-denied address, IPv6 peer on an IPv4 allocation) - those "
+              "writes may fail but must not disturb the other flows -, every peer host also sends from a second port the client never wrote "
+              "to (a flow admitted by the per-IP permission alone, with no channel to hide an expired permission), bursts may start with the "
+              "peers instead of the client, and a burst can be placed on the instant the nonce held by the client turns stale (read off the "
+              "wire), with the client's timer phase against the server's minute-granular nonce clock generated as well. Also runs Allocate "
+              "with generated time-windowed credentials (C17 end-to-end)."),
     "level_note": "Trusted: simnet, testing/synctest. The client's binding refresh/check intervals cannot be configured from outside the package and stay at their defaults (5 min / 30 s). 'Indefinitely' is explored as hours per case.",
     "technique": "property-based testing under virtual time with injected faults: rapid-generated configurations, traffic patterns and per-transaction loss schedules for a real client/server pair; delivery oracle on periodic probes",
     "rule": "non-trivial = protocol duration > 61 min (nonce horizon) or an idle gap > 10 min, and at least one transaction with lost round trips; distinct by hash of the case",
     "assumptions": [],
     "stages": [
         {"name": "session", "pkg": "cliworld", "run": "^TestC14$",
-         "quick": {"shards": 4, "checks": 80, "timeout_s": 500},
-         "thorough": {"shards": 16, "checks": 1500, "timeout_s": 3000}},
+         "quick": {"shards": 4, "checks": 400, "timeout_s": 500},
+         "thorough": {"shards": 16, "checks": 4000, "timeout_s": 3000}},
     ],
 }
 
